@@ -31,6 +31,8 @@ pub struct Att {
     pub faulted: u32,
     /// attempts answered completely and correctly
     pub served: u32,
+    /// a later request arrived on the backend connection while this one was still unanswered
+    pub followed_while_owing: u32,
     /// h2c attempts whose request sozu never ended (no END_STREAM until the connection went away)
     pub never_ended: u32,
 }
@@ -40,6 +42,8 @@ pub struct BackState {
     pub attempts: Mutex<HashMap<u64, Att>>,
     /// largest number of request streams one h2c backend connection carried at the same time
     pub h2c_max_streams: AtomicUsize,
+    /// requests written by sozu on a backend connection that still owed an answer
+    pub written_on_owing_connection: AtomicUsize,
     pub h2c_conns: AtomicUsize,
     pub h1_conns: AtomicUsize,
     /// largest number of requests served on one HTTP/1.1 backend connection
@@ -61,6 +65,10 @@ impl BackState {
     }
     pub fn served(&self, id: u64) {
         self.attempts.lock().unwrap().entry(id).or_default().served += 1;
+    }
+    pub fn followed_while_owing(&self, id: u64) {
+        self.written_on_owing_connection.fetch_add(1, Ordering::SeqCst);
+        self.attempts.lock().unwrap().entry(id).or_default().followed_while_owing += 1;
     }
     pub fn never_ended(&self, id: u64) {
         self.attempts.lock().unwrap().entry(id).or_default().never_ended += 1;
@@ -111,6 +119,35 @@ fn drain(s: &mut TcpStream, cap: Duration) {
     }
 }
 
+#[derive(PartialEq)]
+enum Owing {
+    /// nothing arrived
+    Quiet,
+    /// sozu wrote more bytes on the connection although an answer is still owed
+    MoreBytes,
+    Closed,
+}
+
+/// watch a connection on which an answer is owed, without consuming anything
+fn wait_owing(s: &mut TcpStream, dur: Duration) -> Owing {
+    let end = Instant::now() + dur;
+    let mut b = [0u8; 1];
+    let _ = s.set_read_timeout(Some(Duration::from_millis(20)));
+    let r = loop {
+        if Instant::now() >= end {
+            break Owing::Quiet;
+        }
+        match s.peek(&mut b) {
+            Ok(0) => break Owing::Closed,
+            Ok(_) => break Owing::MoreBytes,
+            Err(e) if matches!(e.kind(), std::io::ErrorKind::WouldBlock | std::io::ErrorKind::TimedOut) => {}
+            Err(_) => break Owing::Closed,
+        }
+    };
+    let _ = s.set_read_timeout(Some(Duration::from_secs(15)));
+    r
+}
+
 fn garbage(v: u8) -> &'static [u8] {
     match v {
         0 => b"\x00\x01\x02\xff\xfe garbage\r\n\r\n",
@@ -155,8 +192,30 @@ fn h1_act(state: &BackState, s: &mut TcpStream, sc: &Script, faulted: bool) -> b
         Fault::Stall { k } => {
             let k = (*k).min(resp.len());
             let _ = write_paced(s, &resp[..k]);
-            drain(s, Duration::from_secs(12));
+            // (the request was read completely: anything that arrives now is a further request)
+            if sc.early {
+                // the rest of the request body is still arriving
+                drain(s, Duration::from_secs(12));
+            } else if wait_owing(s, Duration::from_secs(12)) == Owing::MoreBytes {
+                state.followed_while_owing(sc.id);
+                drain(s, Duration::from_secs(10));
+            }
             false
+        }
+        Fault::Late { pre, after_ms } => {
+            let pre = (*pre).min(resp.len());
+            let _ = write_paced(s, &resp[..pre]);
+            let end = Instant::now() + Duration::from_millis(*after_ms as u64);
+            match wait_owing(s, Duration::from_millis(*after_ms as u64)) {
+                Owing::Closed => return false,
+                Owing::MoreBytes => {
+                    state.followed_while_owing(sc.id);
+                    std::thread::sleep(end.saturating_duration_since(Instant::now()));
+                }
+                Owing::Quiet => {}
+            }
+            // the slow backend finally answers, where it got the request, and goes on serving
+            write_paced(s, &resp[pre..])
         }
         Fault::InterimStall { code } => {
             let interim: &[u8] = if *code == 100 {
